@@ -74,24 +74,25 @@ impl<T> SharedFd<T> {
 
     /// Wait and take the inner owned fd.
     pub fn take(self) -> impl Future<Output = Option<T>> {
-        let inner = self.into_inner();
-
+        // Keep `self` as a `SharedFd` while the future is alive: if the future is
+        // dropped (polled or not), or resolves to `None`, this handle is released
+        // through `Drop`, which wakes a future that is waiting for it.
         async move {
-            if !inner.waits.swap(true, Ordering::AcqRel) {
-                let mut inner = Some(inner);
+            if !self.0.waits.swap(true, Ordering::AcqRel) {
+                let mut this = Some(self);
                 poll_fn(move |cx| {
-                    let i = inner.take().unwrap();
-                    let this = match Shared::try_unwrap(i) {
+                    let i = this.take().unwrap().into_inner();
+                    let i = match Shared::try_unwrap(i) {
                         Ok(fd) => return Poll::Ready(Some(fd.fd)),
-                        Err(this) => this,
+                        Err(i) => i,
                     };
 
-                    this.waker.register(cx.waker());
+                    i.waker.register(cx.waker());
 
-                    match Shared::try_unwrap(this) {
+                    match Shared::try_unwrap(i) {
                         Ok(fd) => Poll::Ready(Some(fd.fd)),
-                        Err(tt) => {
-                            inner = Some(tt);
+                        Err(i) => {
+                            this = Some(Self(i));
                             Poll::Pending
                         }
                     }
